@@ -258,7 +258,9 @@ class Engine(CoreMixin, ExprMixin, CallMixin, StmtMixin, BuiltinMixin):
                     c = sp_pre.compile_bool(cond)
                     self.spec_state = st
                     self.obl("post@return", node, st, Not(c), detail=f"returns although `{cond}` (must raise {'/'.join(names)})")
-                self.obl("post@return", node, st, sp.compile_bool(contract.returns), detail=f"ensures {contract.returns}")
+                from .core import split_and
+                for part in split_and(sp.compile_bool(contract.returns)):
+                    self.obl("post@return", node, st, part, detail=f"ensures {contract.returns}")
                 if "warns" in contract.ghost:
                     want = SpecEval(self, env, glob=fi.glob).compile_bool(contract.ghost["warns"])
                     n = st.ghost.get("warns", 0)
